@@ -228,6 +228,12 @@ fn run_generate(
             &config,
         )
         .unwrap_or(true) // On error, assume regeneration is needed
+            // A generated file that has gone missing defeats the cache as well
+            || !GenerationCache::outputs_present(
+                &config.output_path,
+                !analyzer.get_discovered_events().is_empty(),
+                config.should_visualize_deps(),
+            )
     };
 
     if !needs_regeneration {
